@@ -147,6 +147,11 @@ def _for_over(I, s, st, itv, ctx):
         vals = d.vals
         return _for_symbolic(I, s, st, "seq", d.keys, ctx,
                              elem_val=lambda x: TupV([Sym(x), Sym(z3.Select(vals, x))]))
+    if isinstance(itv, FuncV) and itv.kind == "builtin" and itv.data.get("name") == "$dictvalues":
+        # iteration over d.values(): one step per key, the element is the value stored under it
+        d = st.heap[itv.data["self"].oid]
+        vals = d.vals
+        return _for_symbolic(I, s, st, "seq", d.keys, ctx, elem_val=lambda x: Sym(z3.Select(vals, x)))
     items = iter_items(I, st, itv)
     if items is not None:
         live, brk, esc = [st], [], []
